@@ -1,3 +1,235 @@
-import QtyModel.Registry
+import QtyModel.Props.C11
+import QtyModel.Typing
+/-
+  C12 — Malformed quantity definitions are rejected at compile time.
+  (partial: `syn` and rustc are modelled)
+
+  One theorem per defect class: EVERY raw definition having the defect is rejected by the
+  model of the macro, and the error is attached to the offending attribute (or to the
+  `#[quantity]` call site / the item, where the real macro uses `abort_call_site!` / reports
+  the item).  Together with `C11.expand_ok_iff` the macro accepts exactly the well-formed ones.
+-/
 namespace Qty.C12
+open Qty Qty.MacroFront Qty.C11
+
+/-! ### helper lemmas -/
+
+theorem isEmpty_false_of_mem {α : Type} {l : List α} {a : α} (h : a ∈ l) : l.isEmpty = false := by
+  cases l with
+  | nil => simp at h
+  | cons _ _ => rfl
+
+/-- a `#[unit]` attribute failing the check of the mode makes the scan of the unit attributes
+fail, at some `#[unit]` attribute -/
+theorem parseUnitsIx_fails (w : Bool) (it : RawItem) (a : RawAttr) (ha : a ∈ unitAttrs it)
+    (hbad : unitOk w a = false) :
+    ∃ j msg b, parseUnits w (unitsIx it) = .error ⟨.attr j, msg⟩ ∧ it.attrs[j]? = some b ∧
+      b.kind = .unit := by
+  cases hp : parseUnits w (unitsIx it) with
+  | ok us =>
+    have hall : (unitAttrs it).all (unitOk w) = true := (parseUnitsIx_ok_iff w it).mp ⟨us, hp⟩
+    rw [List.all_eq_true] at hall
+    rw [hall a ha] at hbad
+    cases hbad
+  | error e =>
+    obtain ⟨j, b, msg, h1, h2, rfl⟩ := parseUnitsIx_error w it e hp
+    exact ⟨j, msg, b, rfl, h1, h2⟩
+
+theorem parseArgs_error_site (args : List Tok) (e : MacroErr) (h : parseArgs args = .error e) :
+    e.site = .args := by
+  unfold parseArgs at h
+  split at h
+  · cases h
+  · split at h
+    · cases h
+    · split at h
+      · cases h
+      · cases h; rfl
+  · cases h; rfl
+
+/-- a definition with no unit -/
+theorem no_unit (it : RawItem) (hs : it.isStruct = true) (hg : it.hasGenerics = false)
+    (hf : it.hasFields = false) (h : unitAttrs it = []) (hr : (refAttrs it).length ≤ 1) :
+    ∃ msg, expand it = .error ⟨.callSite, msg⟩ := by
+  have hu : (unitAttrs it).isEmpty = true := by rw [h]; rfl
+  rcases declared_spec it hs hg hf with ⟨_, hd⟩ | ⟨j, r, _, _, hd⟩ | ⟨j, a, msg, h2, _, _, _⟩
+  · rw [hu] at hd; exact ⟨_, expand_error_of_declared it _ hd⟩
+  · rw [hu] at hd; exact ⟨_, expand_error_of_declared it _ hd⟩
+  · omega
+
+/-- more than one reference unit: reported at the second `#[ref_unit]` attribute -/
+theorem two_ref_units (it : RawItem) (hs : it.isStruct = true) (hg : it.hasGenerics = false)
+    (hf : it.hasFields = false) (h : 2 ≤ (refAttrs it).length) :
+    ∃ j msg a, expand it = .error ⟨.attr j, msg⟩ ∧ it.attrs[j]? = some a ∧ a.kind = .refUnit := by
+  rcases declared_spec it hs hg hf with ⟨hr, _⟩ | ⟨j, r, hr, _, _⟩ | ⟨j, a, msg, _, hj, hk, hd⟩
+  · rw [hr] at h; simp at h
+  · rw [hr] at h; simp at h
+  · exact ⟨j, msg, a, expand_error_of_declared it _ hd, hj, hk⟩
+
+/-- a scale on the reference unit: reported at the `#[ref_unit]` attribute -/
+theorem scale_on_ref_unit (it : RawItem) (hs : it.isStruct = true) (hg : it.hasGenerics = false)
+    (hf : it.hasFields = false) (hu : unitAttrs it ≠ []) (r : RawAttr) (hr : refAttrs it = [r])
+    (u : UnitDef) (hp : parseUnit r.toks = some u) (hsc : u.scale.isSome = true) :
+    ∃ j msg, expand it = .error ⟨.attr j, msg⟩ ∧ it.attrs[j]? = some r := by
+  have hu' : (unitAttrs it).isEmpty = false := by
+    cases h : unitAttrs it with
+    | nil => exact absurd h hu
+    | cons _ _ => rfl
+  rcases declared_spec it hs hg hf with ⟨hr', _⟩ | ⟨j, r', hr', hj, hd⟩ | ⟨j, a, msg, h2, _, _, _⟩
+  · rw [hr] at hr'; cases hr'
+  · rw [hr] at hr'
+    cases hr'
+    rw [hu', hp] at hd
+    simp only [Bool.false_eq_true, if_false, hsc, if_true] at hd
+    exact ⟨j, _, expand_error_of_declared it _ hd, hj⟩
+  · rw [hr] at h2; simp at h2
+
+/-- a unit without scale next to a reference unit: reported at that `#[unit]` attribute -/
+theorem unit_without_scale_beside_ref (it : RawItem) (hs : it.isStruct = true) (hg : it.hasGenerics = false)
+    (hf : it.hasFields = false) (r : RawAttr) (hr : refAttrs it = [r])
+    (rd : UnitDef) (hp : parseUnit r.toks = some rd) (hrs : rd.scale = none)
+    (a : RawAttr) (ha : a ∈ unitAttrs it) (u : UnitDef) (hpu : parseUnit a.toks = some u) (hus : u.scale = none) :
+    ∃ j msg b, expand it = .error ⟨.attr j, msg⟩ ∧ it.attrs[j]? = some b ∧ b.kind = .unit := by
+  have hu' : (unitAttrs it).isEmpty = false := isEmpty_false_of_mem ha
+  have hbad : unitOk true a = false := by unfold unitOk; rw [hpu]; simp [hus]
+  obtain ⟨i, msg, b, hpe, hi, hb⟩ := parseUnitsIx_fails true it a ha hbad
+  rcases declared_spec it hs hg hf with ⟨hr', _⟩ | ⟨j, r', hr', hj, hd⟩ | ⟨j, a, msg, h2, _, _, _⟩
+  · rw [hr] at hr'; cases hr'
+  · rw [hr] at hr'
+    cases hr'
+    rw [hu', hp] at hd
+    simp only [Bool.false_eq_true, if_false, hrs, Option.isSome_none, hpe] at hd
+    exact ⟨i, msg, b, expand_error_of_declared it _ hd, hi, hb⟩
+  · rw [hr] at h2; simp at h2
+
+/-- a scale or prefix without any reference unit: reported at a `#[unit]` attribute -/
+theorem scale_or_prefix_without_ref (it : RawItem) (hs : it.isStruct = true) (hg : it.hasGenerics = false)
+    (hf : it.hasFields = false) (hr : refAttrs it = [])
+    (a : RawAttr) (ha : a ∈ unitAttrs it) (u : UnitDef) (hpu : parseUnit a.toks = some u)
+    (hbad : u.scale.isSome = true ∨ u.pfx.isSome = true) :
+    ∃ j msg b, expand it = .error ⟨.attr j, msg⟩ ∧ it.attrs[j]? = some b ∧ b.kind = .unit := by
+  have hu' : (unitAttrs it).isEmpty = false := isEmpty_false_of_mem ha
+  have hbad' : unitOk false a = false := by
+    unfold unitOk; rw [hpu]
+    cases hs : u.scale <;> cases hx : u.pfx <;> simp [hs, hx] at hbad ⊢
+  obtain ⟨i, msg, b, hpe, hi, hb⟩ := parseUnitsIx_fails false it a ha hbad'
+  rcases declared_spec it hs hg hf with ⟨_, hd⟩ | ⟨j, r', hr', _, _⟩ | ⟨j, a, msg, h2, _, _, _⟩
+  · rw [hu'] at hd
+    simp only [Bool.false_eq_true, if_false, hpe] at hd
+    exact ⟨i, msg, b, expand_error_of_declared it _ hd, hi, hb⟩
+  · rw [hr] at hr'; cases hr'
+  · rw [hr] at h2; simp at h2
+
+/-- a wrong number or kind of attribute arguments (the token list is not one of the documented
+forms): reported at an attribute -/
+theorem bad_attribute_arguments (it : RawItem) (hs : it.isStruct = true) (hg : it.hasGenerics = false)
+    (hf : it.hasFields = false) (hr : (refAttrs it).length ≤ 1)
+    (a : RawAttr) (ha : a ∈ it.attrs) (hbad : parseUnit a.toks = none) :
+    ∃ j msg, expand it = .error ⟨.attr j, msg⟩ ∨ expand it = .error ⟨.callSite, msg⟩ := by
+  have hbad' : ∀ w, unitOk w a = false := by intro w; unfold unitOk; rw [hbad]
+  cases hk : a.kind with
+  | unit =>
+    have hau : a ∈ unitAttrs it := by
+      unfold unitAttrs; rw [List.mem_filter]; exact ⟨ha, by simp [hk]⟩
+    have hu' : (unitAttrs it).isEmpty = false := isEmpty_false_of_mem hau
+    rcases declared_spec it hs hg hf with ⟨_, hd⟩ | ⟨j, r, _, _, hd⟩ | ⟨j, a, msg, h2, _, _, _⟩
+    · obtain ⟨i, msg, b, hpe, _, _⟩ := parseUnitsIx_fails false it a hau (hbad' false)
+      rw [hu'] at hd
+      simp only [Bool.false_eq_true, if_false, hpe] at hd
+      exact ⟨i, msg, Or.inl (expand_error_of_declared it _ hd)⟩
+    · obtain ⟨i, msg, b, hpe, _, _⟩ := parseUnitsIx_fails true it a hau (hbad' true)
+      rw [hu'] at hd
+      simp only [Bool.false_eq_true, if_false] at hd
+      cases hpr : parseUnit r.toks with
+      | none =>
+        rw [hpr] at hd
+        exact ⟨j, _, Or.inl (expand_error_of_declared it _ hd)⟩
+      | some rd =>
+        rw [hpr] at hd
+        cases hsc : rd.scale.isSome with
+        | true =>
+          simp only [hsc, if_true] at hd
+          exact ⟨j, _, Or.inl (expand_error_of_declared it _ hd)⟩
+        | false =>
+          simp only [hsc, Bool.false_eq_true, if_false, hpe] at hd
+          exact ⟨i, msg, Or.inl (expand_error_of_declared it _ hd)⟩
+    · omega
+  | refUnit =>
+    have har : a ∈ refAttrs it := by
+      unfold refAttrs; rw [List.mem_filter]; exact ⟨ha, by simp [hk]⟩
+    rcases declared_spec it hs hg hf with ⟨hr', _⟩ | ⟨j, r, hr', _, hd⟩ | ⟨j, a, msg, h2, _, _, _⟩
+    · rw [hr'] at har; simp at har
+    · rw [hr'] at har
+      have : a = r := by simpa using har
+      subst this
+      cases hu' : (unitAttrs it).isEmpty with
+      | true =>
+        rw [hu'] at hd
+        exact ⟨0, _, Or.inr (expand_error_of_declared it _ hd)⟩
+      | false =>
+        rw [hu', hbad] at hd
+        exact ⟨j, _, Or.inl (expand_error_of_declared it _ hd)⟩
+    · omega
+
+/-- struct fields, generic parameters, or an item that is not a struct: reported at the item -/
+theorem bad_item (it : RawItem) (h : it.isStruct = false ∨ it.hasGenerics = true ∨ it.hasFields = true) :
+    ∃ msg, expand it = .error ⟨.item, msg⟩ := by
+  obtain ⟨msg, e⟩ := declared_item it h
+  exact ⟨msg, expand_error_of_declared it _ e⟩
+
+/-- a derivation argument other than a product or quotient of two identifiers -/
+theorem bad_derivation_arg (it : RawItem) (h : WellFormedRaw { it with args := [] } = true)
+    (hbad : argsOk it.args = false) : ∃ msg, expand it = .error ⟨.args, msg⟩ := by
+  obtain ⟨⟨dc, hd⟩, _⟩ := (expand_ok_iff' _).mp ((expand_ok_iff _).mpr h)
+  have hd' : declared it = .ok dc := hd
+  rw [expand_eq, hd']
+  unfold argsOk at hbad
+  cases hp : parseArgs it.args with
+  | ok dv => simp [hp] at hbad
+  | error e =>
+    have := parseArgs_error_site _ e hp
+    obtain ⟨site, msg⟩ := e
+    cases this
+    exact ⟨msg, rfl⟩
+
+/-- the accepted derivation arguments are exactly: nothing, `A * B`, `A / B` -/
+theorem args_ok_iff (args : List Tok) :
+    argsOk args = true ↔
+      args = [] ∨ ∃ a b, args = [.ident a, .punct 42, .ident b] ∨ args = [.ident a, .punct 47, .ident b] := by
+  constructor
+  · intro h
+    unfold argsOk parseArgs at h
+    split at h
+    · next heq =>
+      split at heq
+      · left; rfl
+      · next l c r =>
+        right
+        split at heq
+        · next hc => subst hc; exact ⟨l, r, Or.inl rfl⟩
+        · split at heq
+          · next hc => subst hc; exact ⟨l, r, Or.inr rfl⟩
+          · cases heq
+      · cases heq
+    · cases h
+  · rintro (rfl | ⟨a, b, rfl | rfl⟩) <;> rfl
+
+/-- a derived definition whose operand or result type lacks a reference unit gets no usable
+operator: the generated impls carry `HasRefUnit` bounds on both operands, and the impl table
+of the type checker drops them -/
+theorem derived_needs_ref_units (decls : List TyDecl) (i : OpImpl)
+    (hi : i ∈ (decls.flatMap derivedImpls).filter (fun i => hasRefUnit decls i.lhs && hasRefUnit decls i.rhs)) :
+    hasRefUnit decls i.lhs = true ∧ hasRefUnit decls i.rhs = true := by
+  have := (List.mem_filter.mp hi).2
+  simpa using this
+
+/-- non-vacuity: the 'missing scale' program of tests/ui is rejected at its third attribute -/
+example : expand
+    { args := [], name := [70, 111, 111],
+      attrs := [⟨.refUnit, [.ident [65], .comma, .str [97], .comma, .ident [77, 69, 71, 65]]⟩,
+                ⟨.unit, [.ident [66], .comma, .str [98], .comma, .float { digits := 4, nfrac := 1, isFloat := true }]⟩,
+                ⟨.unit, [.ident [67], .comma, .str [99]]⟩] }
+    = .error ⟨.attr 2, "<scale> arg expected."⟩ := by
+  decide +kernel
+
 end Qty.C12
